@@ -10,6 +10,11 @@ NONE_TOK = 999999     # the value None passed as a token
 # forever; CPU time, not wall-clock time: on a loaded machine a starved worker must not be mistaken for a hanging library).
 # BaseException so that no `except Exception` of the library swallows it
 import signal
+
+class EmptyCarrier(Item):
+    """a user flow-item class whose instances are falsy (an empty load carrier: len() == 0).  The stores move objects, whatever their truth
+    value is: every fourth object of a history is one of these."""
+    def __len__(self): return 0
 OP_TIMEOUT = float(os.environ.get("VERIF_OP_TIMEOUT", "10"))
 class OpTimeout(BaseException): pass
 def _on_alarm(signum, frame): raise OpTimeout()
@@ -50,7 +55,7 @@ class ImplBase:
 
     def item(self, hid, kind=0):
         if hid not in self.items:
-            it = Item(f"it{hid}"); it.hid = hid; it.kind = kind
+            it = (EmptyCarrier if hid % 4 == 3 else Item)(f"it{hid}"); it.hid = hid; it.kind = kind
             self.items[hid] = it
         return self.items[hid]
 
@@ -142,9 +147,16 @@ class PosImpl(ImplBase):
         super().__init__()
         self.prio, self.filt, self.td = prio, filt, td
         capacity = float("inf") if cap == "inf" else int(cap)
+        self.pscale = 0.5 if (cap != "inf" and int(cap) % 2 == 1) else 1      # odd capacity: priorities in halves (same order as the model's integers)
         if filt:
             from factorysimpy.base.reservable_priority_req_filter_store import ReservablePriorityReqFilterStore as C
-            self.store = C(self.env, capacity=capacity, trigger_delay=t2f(td))
+            # every other configuration assigns trigger_delay after construction (a public attribute the store reads when it is used), the
+            # way the library's examples set node and edge parameters; decided by the header, so a replay does the same
+            if (int(td) + (0 if cap == "inf" else int(cap))) % 2 == 1:
+                self.store = C(self.env, capacity=capacity)
+                self.store.trigger_delay = t2f(td)
+            else:
+                self.store = C(self.env, capacity=capacity, trigger_delay=t2f(td))
         elif prio:
             from factorysimpy.base.reservable_priority_req_store import ReservablePriorityReqStore as C
             self.store = C(self.env, capacity=capacity)
@@ -161,11 +173,13 @@ class PosImpl(ImplBase):
         if r is not None: return r
         if k == "rp":
             _, a, p = op
+            p = p * self.pscale
             r = self.call(a, (lambda: st.reserve_put(priority=p)) if self.prio else st.reserve_put)
             if r[0] == "err": return "err " + r[1]
             return f"tok {self.reg(r[1])}"
         if k == "rg":
             _, a, p, f = op
+            p = p * self.pscale
             if self.filt: fn = lambda: st.reserve_get(priority=p, filter=mk_filter(f))
             elif self.prio: fn = lambda: st.reserve_get(priority=p)
             else: fn = st.reserve_get
@@ -203,7 +217,13 @@ class BufImpl(ImplBase):
             self.ndraws = 0; self.naccepted = 0
             def _draw():
                 self.ndraws += 1; return t2f(self.next_delay)
-            self.edge = Buffer(self.env, "B", capacity=int(cap), delay=_draw, mode=mode)
+            # every other configuration (odd capacity) is constructed with the default delay and gets its delay source assigned afterwards,
+            # the way the library's examples set edge parameters: the delay in force is the one the attribute holds at the put
+            if int(cap) % 2 == 1:
+                self.edge = Buffer(self.env, "B", capacity=int(cap), mode=mode)
+                self.edge.delay = _draw
+            else:
+                self.edge = Buffer(self.env, "B", capacity=int(cap), delay=_draw, mode=mode)
             self.edge.src_node = _DummyNode("src"); self.edge.dest_node = _DummyNode("dst")
             self.store = self.edge.inbuiltstore
             self.api = self.edge
@@ -472,13 +492,16 @@ class PrqImpl:
         from factorysimpy.base.priority_req_store import PriorityReqStore
         self.env = RecEnv()
         self.store = PriorityReqStore(self.env, capacity=int(cap))
+        # priorities are numbers, not necessarily integers: a store of odd capacity is driven with halves (p / 2: -1.0, -0.5, 0.0, 0.5 …),
+        # which are ordered exactly like the integers p the model sees
+        self.pscale = 0.5 if int(cap) % 2 == 1 else 1
         self.reqs = []           # request events by id
         self.mark = 0
         self.items = {}
 
     def item(self, hid, kind):
         if hid not in self.items:
-            it = Item(f"it{hid}"); it.hid = hid; it.kind = kind
+            it = (EmptyCarrier if hid % 4 == 3 else Item)(f"it{hid}"); it.hid = hid; it.kind = kind
             self.items[hid] = it
         return self.items[hid]
 
@@ -497,9 +520,9 @@ class PrqImpl:
         k = op[0]; n0 = len(self.reqs)
         try:
             if k == "pput":
-                self.reqs.append(self.store.put(self.item(op[2], op[3]), priority=op[1]))
+                self.reqs.append(self.store.put(self.item(op[2], op[3]), priority=op[1] * self.pscale))
             elif k == "pget":
-                self.reqs.append(self.store.get(priority=op[1]))
+                self.reqs.append(self.store.get(priority=op[1] * self.pscale))
             elif k == "cancel":
                 if op[1] < len(self.reqs): self.reqs[op[1]].cancel()
             elif k == "kstep":
